@@ -44,7 +44,10 @@ MIN_MONITORS = {"*": {"sub.rect_cell": 20, "sub.delaunay": 20, "sub.outside_hull
 def plan(tier, seed):
     n = 800 if tier == "quick" else 60000
     step = 10 if tier == "quick" else 100
-    return [{"kind": "map", "start": s, "stop": min(n, s + step), "w": step} for s in range(0, n, step)]
+    units = [{"kind": "map", "start": s, "stop": min(n, s + step), "w": step} for s in range(0, n, step)]
+    if tier == "thorough":
+        units.append({"kind": "suite", "w": 10 ** 7})   # the repository's own tests with the contracts installed (DESIGN 1.5)
+    return units
 
 
 def _np(x):
@@ -67,6 +70,11 @@ def post_mapping_matrix(ctx, a, result, old):
 
 def setup(ctx):
     ctx.aa = env.boot("base")
+    install_contracts(ctx)
+
+
+def install_contracts(ctx):
+    """Also used by harness/suite_plugin.py (the repository's own tests drive the contract in the thorough tier)."""
     from autoarray.inversion.pixelization.mappers import mapper_util
     contracts.attach(ctx, mapper_util, "mapping_matrix_from", post_mapping_matrix)
 
